@@ -80,9 +80,8 @@ def normalize_spec(spec: dict, drop_traj_always=True) -> Tuple[dict, Built, RefS
     keep = []
     changed = False
     E = ref.E
-    stored = b.problem.trajectory_constraints
     for idx, t in enumerate(spec.get("traj", [])):
-        if stored[idx].is_bool_constant():
+        if b.expr(t).simplify().is_bool_constant():
             # add_trajectory_constraint simplifies: a constant constraint is no constraint
             changed = True
             continue
